@@ -297,6 +297,7 @@ def write_evidence(o, spec):
             "input_distribution": o.dist,
             "model_vs_impl_disagreements": len(o.mismatches),
             "broken_obligations": o.broken,
+            "soft_skeletons_differing": getattr(o, "soft_differs", []),
             "known_findings_replayed": o.known_hits,
             "explanation": spec.get("explanation", ""),
         },
@@ -359,6 +360,18 @@ def run_property(pid, tier, seed, replay=None):
         o.broken.append("lake build: " + first_lean_error(out))
         # kmodel may be stale/broken; try to build it alone so that the search can still use the model
         lake_build(["kmodel"])
+    # 2b change detectors (soft obligations, DESIGN.md §17): control skeletons of sequential code whose behaviour the correspondence run
+    #    observes completely (server/mod.rs request handling, ResponseHandle, BodyReader).  A skeleton that no longer matches — a
+    #    re-shaped but equivalent body does that as well as a changed one — is not reported by itself: the model stays tied to the
+    #    code by the correspondence, which is then run with the thorough budget.
+    soft_differs = []
+    for m in spec.get("soft_lean", []):
+        okm, outm = lake_build([m]) if ok else (False, "not built: the property's theorem modules do not build")
+        if okm:
+            modules = modules + [m]
+        else:
+            soft_differs.append(m.split(".")[-1] + ": " + first_lean_error(outm))
+    o.soft_differs = soft_differs
     # 3 audit
     names = []
     for m in modules:
@@ -423,8 +436,10 @@ def run_property(pid, tier, seed, replay=None):
             traceback.print_exc()
             o.broken.append("check machinery error: %r" % (e,))
         # a broken proof/correspondence with no concrete failing input yet: search harder (DESIGN.md §4)
-        if (o.broken or o.mismatches) and not o.violations and tier == "quick" and spec.get("search", True):
-            o.notes.append("obligation broken -> search with thorough budget")
+        if soft_differs and not o.broken and not o.mismatches:
+            o.notes.append("control skeleton differs from the one the model mirrors (%s): the tie rests on the correspondence run, repeated with the thorough budget" % "; ".join(soft_differs)[:400])
+        if (o.broken or o.mismatches or soft_differs) and not o.violations and tier == "quick" and spec.get("search", True):
+            o.notes.append("obligation broken / skeleton changed -> search with thorough budget")
             try:
                 runner(o, ctx, "search", seed)
             except Exception:
